@@ -2,23 +2,641 @@ import MsPack.Basic
 import MsPack.Generated.Tables
 import MsPack.Generated.Consts
 /-
-qtmd.c — STUB (see MsPack/Lzx/Decoder.lean).
+qtmd.c (+ qtm.h, the MSB-first instance of readbits.h): `qtmd_init`, `qtmd_update_model`,
+`GET_SYMBOL`, `qtmd_decompress`.
+
+Layout of the model
+* `St σ`  = `struct qtmd_stream` (what is kept between calls), `src` = the `input` handle.
+* `Run σ` = `St σ` + the *local variables* of `qtmd_decompress` (`i_ptr/i_end`, `bit_buffer`,
+  `bits_left`, `window_posn`, `frame_todo`, `H`, `L`, `C`, `out_bytes`) + the bytes handed to
+  `write` so far.  The C copies the struct fields into locals (`RESTORE_BITS` …) and writes them
+  back only on the successful exit (`STORE_BITS` …): every `return qtm->error = …` and the
+  `return` hidden in `READ_IF_NEEDED` leave the struct copies as they were when the call began.
+  The split reproduces that: on a status ≠ OK the result state is `Run.st` untouched by the
+  locals.  What *is* changed in place and survives an error: the window contents, the nine
+  models, `header_read`, `o_ptr`, `o_end`, `input_end`, `error`, the input handle, and the
+  struct's `i_ptr/i_end` (set by `read_input`).
+* monad `QM σ = ExceptT Halt (StateM (Run σ))`: state survives a `throw`.
+
+Integers are `Nat` with the C's wrap-around written out (`% 2^16` for `unsigned short`,
+`% u32` = `% 2^32` for `unsigned int`); the only `Int` is `shiftsleft` (a C `int` that is
+decremented before it is tested).  `x << n` is written `shl x n` (= `x <<< n`, see `shl_eq`).
+Pointers into the window (`o_ptr`, `o_end`, `rundest`, `runsrc`) are offsets from `window`.
+
+Bit buffer: `bit_buffer` is the 32-bit word itself (MSB-first: the next bit is bit 31),
+`bits_left` its fill.  `INJECT_BITS` shifts by `32 - 16 - bits_left`, `PEEK_BITS(n)` by
+`32 - n`: a negative or ≥ 32 shift count is `Fault.shiftWidth` (neither occurs: `READ_BYTES` is
+only executed with `bits_left ≤ 16`, `PEEK_BITS` only with 1 ≤ n ≤ 19).
+
+Loops: the symbol loop runs on `frame_end - window_posn` (every iteration advances
+`window_posn`), the block loop on `2 * out_bytes + 4` (every second iteration at least delivers a
+byte), the model loops on `entries`; the loops whose only progress is input consumption (the
+renormalisation loop of `GET_SYMBOL`, the 0xFF trailer scan) run on the caller's `fuel`.
 -/
 namespace MsPack.Qtm
-open MsPack
+open MsPack MsPack.Generated
 
-def implemented : Bool := false
+def implemented : Bool := true
+
+/-- `2^n` by repeated doubling.  (The runtime implements `Nat.shiftLeft` and `Nat.pow` through
+    GMP even for small operands; the decoder shifts once per input bit.) -/
+def pow2 : Nat → Nat
+  | 0 => 1
+  | n + 1 => 2 * pow2 n
+
+theorem pow2_eq (n : Nat) : pow2 n = 2 ^ n := by
+  induction n with
+  | zero => rfl
+  | succ n ih => simp [pow2, ih, Nat.pow_succ, Nat.mul_comm]
+
+/-- 2^32, the modulus of `unsigned int`.  (A named constant: the code generator turns a literal
+    this large into a run-time string-to-bignum conversion at every use.) -/
+@[noinline] def u32 : Nat := 2 ^ 32
+
+theorem u32_eq : u32 = 4294967296 := by decide
+
+/-- the C's `x << n` before truncation to the type's width -/
+@[inline] def shl (x n : Nat) : Nat := x * pow2 n
+
+theorem shl_eq (x n : Nat) : shl x n = x <<< n := by
+  simp [shl, pow2_eq, Nat.shiftLeft_eq]
+
+/-! ## models (`struct qtmd_modelsym`, `struct qtmd_model`) -/
+
+structure ModelSym where
+  sym     : Nat      -- unsigned short
+  cumfreq : Nat      -- unsigned short
+  deriving Repr, DecidableEq, Inhabited
+
+structure Model where
+  shiftsleft : Int            -- int
+  entries    : Nat            -- int, fixed by `qtmd_init_model`
+  syms       : Array ModelSym -- the `mNsym[]` array of the stream struct, full declared dimension
+  deriving Repr, DecidableEq, Inhabited
+
+/-- `model->syms[i]` -/
+@[inline] def Model.sym (m : Model) (i : Nat) : Except Fault ModelSym :=
+  match m.syms[i]? with
+  | some s => .ok s
+  | none => .error (.oob "qtmd model syms[]")
+
+/-- `model->syms[i].cumfreq = v` -/
+@[inline] def Model.setCumfreq (m : Model) (i v : Nat) : Except Fault Model :=
+  if h : i < m.syms.size then
+    .ok { m with syms := m.syms.set i { sym := m.syms[i].sym, cumfreq := v } }
+  else .error (.oob "qtmd model syms[]")
+
+/-- `model->syms[i] = s` -/
+@[inline] def Model.setSym (m : Model) (i : Nat) (s : ModelSym) : Except Fault Model :=
+  if h : i < m.syms.size then .ok { m with syms := m.syms.set i s }
+  else .error (.oob "qtmd model syms[]")
+
+/-- `qtmd_init_model(model, syms, start, len)` on an array of declared dimension `dim` that the
+    allocator filled with `fill`: entries `0..len` are written, the rest keeps the fill pattern -/
+def initModel (dim start len : Nat) (fill : UInt8) : Model :=
+  let f16 := fill.toNat * 257
+  { shiftsleft := 4, entries := len,
+    syms := ((List.range dim).map fun i =>
+      if i ≤ len then { sym := (start + i) % 65536, cumfreq := (len - i) % 65536 }
+      else { sym := f16, cumfreq := f16 : ModelSym }).toArray }
+
+/-- first branch of `qtmd_update_model`: `for (i = entries - 1; i >= 0; i--)` halve, keep the
+    sequence strictly decreasing; call with `k = entries` (handles index `k - 1`) -/
+def halveLoop : Nat → Model → Except Fault Model
+  | 0, m => .ok m
+  | i + 1, m => do
+    let s ← m.sym i
+    let nx ← m.sym (i + 1)
+    let c := s.cumfreq / 2
+    let c := if c ≤ nx.cumfreq then (nx.cumfreq + 1) % 65536 else c
+    halveLoop i (← m.setCumfreq i c)
+
+/-- second branch, first loop: cumulative → plain frequencies, `+1`, `>> 1` (all in
+    `unsigned short`); `k` iterations from index `i` upwards -/
+def toFreqLoop : Nat → Nat → Model → Except Fault Model
+  | 0, _, m => .ok m
+  | k + 1, i, m => do
+    let s ← m.sym i
+    let nx ← m.sym (i + 1)
+    let c := (s.cumfreq + 65536 - nx.cumfreq) % 65536
+    let c := (c + 1) % 65536
+    let c := c / 2
+    toFreqLoop k (i + 1) (← m.setCumfreq i c)
+
+/-- inner loop of the selection sort: `for (j = …; j < entries; j++) if (syms[i].cumfreq <
+    syms[j].cumfreq) swap`; `k` iterations from `j` upwards -/
+def sortInner : Nat → Nat → Nat → Model → Except Fault Model
+  | 0, _, _, m => .ok m
+  | k + 1, i, j, m => do
+    let a ← m.sym i
+    let b ← m.sym j
+    let m ← if a.cumfreq < b.cumfreq then do
+        let m ← m.setSym i b
+        m.setSym j a
+      else pure m
+    sortInner k i (j + 1) m
+
+/-- outer loop: `for (i = 0; i < entries - 1; i++)`; `k` iterations from `i` upwards -/
+def sortOuter : Nat → Nat → Model → Except Fault Model
+  | 0, _, m => .ok m
+  | k + 1, i, m => do
+    let m ← sortInner (m.entries - (i + 1)) i (i + 1) m
+    sortOuter k (i + 1) m
+
+/-- second branch, last loop: frequencies → cumulative; call with `k = entries` -/
+def resumLoop : Nat → Model → Except Fault Model
+  | 0, m => .ok m
+  | i + 1, m => do
+    let s ← m.sym i
+    let nx ← m.sym (i + 1)
+    resumLoop i (← m.setCumfreq i ((s.cumfreq + nx.cumfreq) % 65536))
+
+/-- `qtmd_update_model` -/
+def updateModel (m : Model) : Except Fault Model :=
+  let sl := m.shiftsleft - 1
+  if sl ≠ 0 then
+    halveLoop m.entries { m with shiftsleft := sl }
+  else do
+    let m := { m with shiftsleft := 50 }
+    let m ← toFreqLoop m.entries 0 m
+    let m ← sortOuter (m.entries - 1) 0 m
+    resumLoop m.entries m
+
+/-- `for (i = 1; i < entries; i++) if (syms[i].cumfreq <= symf) break;` — the final `i`;
+    `k` = iterations left -/
+def scanSym (m : Model) (symf : Nat) : Nat → Nat → Except Fault Nat
+  | 0, i => .ok i
+  | k + 1, i => do
+    if (← m.sym i).cumfreq ≤ symf then .ok i else scanSym m symf k (i + 1)
+
+/-- `do { syms[--i].cumfreq += 8; } while (i > 0);` (entered with `i ≥ 1`) -/
+def bumpLoop : Nat → Model → Except Fault Model
+  | 0, m => .ok m
+  | i + 1, m => do
+    let s ← m.sym i
+    bumpLoop i (← m.setCumfreq i ((s.cumfreq + 8) % 65536))
+
+structure SymOut where
+  sym   : Nat
+  model : Model
+  H     : Nat
+  L     : Nat
+
+/-- `GET_SYMBOL` up to (not including) the renormalisation loop.
+    * `range = ((H - L) & 0xFFFF) + 1` (`unsigned int`, 1..65536, never 0)
+    * `symf = ((((C - L + 1) * syms[0].cumfreq) - 1) / range) & 0xFFFF`: the numerator is an `int`
+      expression (`H`, `L`, `C`, `cumfreq` are `unsigned short`, promoted to `int`), negative when
+      `C < L - 1`; dividing by the `unsigned int` `range` converts it to `unsigned int` first.  The
+      model computes it in arithmetic mod 2^32 throughout (`numU`), which is that conversion's
+      result whenever the `int` expression does not overflow; |numerator| < 2^31 needs
+      `cumfreq[0] ≤ 32767`, and `qtmd_update_model` keeps `cumfreq[0] ≤ 3808`.
+    * `range = (H - L) + 1` again, this time unmasked: `int` → `unsigned int` (`range2`)
+    * `H = L + ((syms[i-1].cumfreq * range) / symf) - 1`, `L = L + (syms[i].cumfreq * range) /
+      symf` in `unsigned int`, truncated to `unsigned short`; `symf = syms[0].cumfreq` may be 0
+      only if the model is corrupt → `divZero` -/
+def decodeSym (m : Model) (H L C : Nat) : Except Fault SymOut := do
+  let range := ((H + 65536 - L) % 65536) + 1
+  let s0 ← m.sym 0
+  let numU := (((C + 1 + u32 - L) % u32) * s0.cumfreq + u32 - 1) % u32
+  if range = 0 then throw .divZero
+  let symf := (numU / range) % 65536
+  let i ← scanSym m symf (m.entries - 1) 1
+  if i = 0 then throw (.oob "qtmd model syms[i-1]")
+  let sPrev ← m.sym (i - 1)
+  let sCur ← m.sym i
+  let range2 := (H + 1 + u32 - L) % u32
+  let tot := s0.cumfreq
+  if tot = 0 then throw .divZero
+  let qH := ((sPrev.cumfreq * range2) % u32) / tot
+  let qL := ((sCur.cumfreq * range2) % u32) / tot
+  let H' := ((L + qH + u32 - 1) % u32) % 65536
+  let L' := ((L + qL) % u32) % 65536
+  let m ← bumpLoop i m
+  let m ← if (← m.sym 0).cumfreq > 3800 then updateModel m else pure m
+  pure { sym := sPrev.sym, model := m, H := H', L := L' }
+
+/-! ## the stream state -/
+
+inductive MId | m0 | m1 | m2 | m3 | m4 | m5 | m6 | m6len | m7
+  deriving Repr, DecidableEq
 
 structure St (σ : Type) where
-  src : σ
+  src        : σ
+  window     : Array UInt8
+  windowSize : Nat
+  windowPosn : Nat
+  frameTodo  : Nat
+  H          : Nat
+  L          : Nat
+  C          : Nat
+  headerRead : Bool
+  error      : Err
+  inbufSize  : Nat
+  inbuf      : Bytes       -- the bytes between `i_ptr` and `i_end`
+  oPtr       : Nat         -- `o_ptr - window`
+  oEnd       : Nat         -- `o_end - window`   (invariant: `oPtr ≤ oEnd ≤ windowSize`)
+  bitBuffer  : Nat
+  bitsLeft   : Nat
+  inputEnd   : Bool
+  model0 : Model
+  model1 : Model
+  model2 : Model
+  model3 : Model
+  model4 : Model
+  model5 : Model
+  model6 : Model
+  model6len : Model
+  model7 : Model
 
-/-- `qtmd_init(system, input, output, window_bits, input_buffer_size)`; `none` = NULL -/
+def St.model {σ : Type} (st : St σ) : MId → Model
+  | .m0 => st.model0 | .m1 => st.model1 | .m2 => st.model2 | .m3 => st.model3
+  | .m4 => st.model4 | .m5 => st.model5 | .m6 => st.model6 | .m6len => st.model6len
+  | .m7 => st.model7
+
+def St.setModel {σ : Type} (st : St σ) (id : MId) (m : Model) : St σ :=
+  match id with
+  | .m0 => { st with model0 := m } | .m1 => { st with model1 := m }
+  | .m2 => { st with model2 := m } | .m3 => { st with model3 := m }
+  | .m4 => { st with model4 := m } | .m5 => { st with model5 := m }
+  | .m6 => { st with model6 := m } | .m6len => { st with model6len := m }
+  | .m7 => { st with model7 := m }
+
+/-- `qtmd_init(system, input, output, window_bits, input_buffer_size)`; `none` = NULL.
+    Allocation succeeds; every allocated object (`struct qtmd_stream`, window, input buffer) is
+    pre-filled with `fill` and only what the C assigns is overwritten: the window stays `fill`,
+    `H`, `L`, `C` and the unused tails of the model arrays keep the fill pattern. -/
 def init {σ : Type} (src : σ) (windowBits inputBufferSize : Nat) (fill : UInt8) : Option (St σ) :=
-  some { src := src }
+  if windowBits < 10 ∨ windowBits > 21 then none else
+  let sz := (inputBufferSize + 1) / 2 * 2
+  if sz < 2 then none else
+  let windowSize := 2 ^ windowBits
+  let i := windowBits * 2
+  let f16 := fill.toNat * 257
+  some {
+    src := src
+    window := Array.replicate windowSize fill
+    windowSize := windowSize
+    windowPosn := 0
+    frameTodo := qtmFRAME_SIZE
+    H := f16, L := f16, C := f16
+    headerRead := false
+    error := .ok
+    inbufSize := sz
+    inbuf := []
+    oPtr := 0, oEnd := 0
+    bitBuffer := 0, bitsLeft := 0
+    inputEnd := false
+    model0 := initModel qtmM0Dim 0 64 fill
+    model1 := initModel qtmM0Dim 64 64 fill
+    model2 := initModel qtmM0Dim 128 64 fill
+    model3 := initModel qtmM0Dim 192 64 fill
+    model4 := initModel qtmM4Dim 0 (if i > 24 then 24 else i) fill
+    model5 := initModel qtmM5Dim 0 (if i > 36 then 36 else i) fill
+    model6 := initModel qtmM6Dim 0 i fill
+    model6len := initModel qtmM6lenDim 0 27 fill
+    model7 := initModel qtmM7Dim 0 7 fill }
 
-/-- `qtmd_decompress(qtm, out_bytes)` -/
+/-! ## `qtmd_decompress` -/
+
+inductive Halt
+  | sys (e : Err)       -- `return` of a non-zero MSPACK_ERR_* code
+  | fault (f : Fault)
+  deriving Repr, DecidableEq
+
+/-- the stream struct + the locals of `qtmd_decompress` + the host's output so far -/
+structure Run (σ : Type) where
+  st         : St σ
+  inbuf      : Bytes      -- local `i_ptr .. i_end`
+  bitBuffer  : Nat        -- local `bit_buffer` (unsigned int)
+  bitsLeft   : Nat        -- local `bits_left` (int; never negative)
+  windowPosn : Nat
+  frameTodo  : Nat
+  H          : Nat
+  L          : Nat
+  C          : Nat
+  outBytes   : Nat
+  written    : Array UInt8
+
+abbrev QM (σ : Type) := ExceptT Halt (StateM (Run σ))
+
+variable {σ : Type} (S : Src σ)
+
+@[inline] def modSt (f : St σ → St σ) : QM σ Unit :=
+  modify fun r => { r with st := f r.st }
+
+/-- `return qtm->error = e` -/
+def fail {α : Type} (e : Err) : QM σ α := do
+  modSt fun st => { st with error := e }
+  throw (.sys e)
+
+@[inline] def liftF {α : Type} : Except Fault α → QM σ α
+  | .ok a => pure a
+  | .error f => throw (.fault f)
+
+/-- `read_input` followed by the reload of the local `i_ptr`, `i_end` in `READ_IF_NEEDED` -/
+def readInput : QM σ Unit := do
+  let r ← get
+  match S.read r.st.src r.st.inbufSize with
+  | .error f => throw (.fault f)
+  | .ok (none, src) =>
+    set { r with st := { r.st with src := src, error := .read } }; throw (.sys .read)
+  | .ok (some [], src) =>
+    if r.st.inputEnd then
+      set { r with st := { r.st with src := src, error := .read } }; throw (.sys .read)
+    else
+      set { r with st := { r.st with src := src, inbuf := [0, 0], inputEnd := true }, inbuf := [0, 0] }
+  | .ok (some got, src) =>
+    set { r with st := { r.st with src := src, inbuf := got }, inbuf := got }
+
+/-- `READ_IF_NEEDED; b = *i_ptr++` -/
+def nextByte : QM σ Nat := do
+  if (← get).inbuf.isEmpty then readInput S
+  let r ← get
+  match r.inbuf with
+  | b :: rest => set { r with inbuf := rest }; pure b.toNat
+  | [] => throw (.fault (.oob "qtmd inbuf"))   -- unreachable: readInput leaves a non-empty buffer
+
+/-- `READ_BYTES`: two bytes, big-endian, `INJECT_BITS(…, 16)` -/
+def readBytes : QM σ Unit := do
+  let b0 ← nextByte S
+  let b1 ← nextByte S
+  let r ← get
+  if r.bitsLeft > 16 then throw (.fault .shiftWidth)      -- shift count 32 - 16 - bits_left < 0
+  set { r with bitBuffer := (r.bitBuffer ||| shl (b0 * 256 + b1) (16 - r.bitsLeft)) % u32,
+               bitsLeft := r.bitsLeft + 16 }
+
+/-- `ENSURE_BITS(n)` (`n ≤ 16`: one refill suffices) -/
+def ensureBits (n : Nat) : Nat → QM σ Unit
+  | 0 => throw (.fault .hang)
+  | k + 1 => do
+    if (← get).bitsLeft < n then
+      readBytes S
+      ensureBits n k
+    else pure ()
+
+/-- `PEEK_BITS(n)` = `bit_buffer >> (32 - n)` -/
+@[inline] def peekBits (n : Nat) : QM σ Nat := do
+  if n = 0 ∨ n > 32 then throw (.fault .shiftWidth)
+  pure ((← get).bitBuffer >>> (32 - n))
+
+/-- `REMOVE_BITS(n)` (every use has `n ≤ bits_left`, `n < 32`) -/
+@[inline] def removeBits (n : Nat) : QM σ Unit := do
+  if n ≥ 32 then throw (.fault .shiftWidth)
+  modify fun r => { r with bitBuffer := shl r.bitBuffer n % u32, bitsLeft := r.bitsLeft - n }
+
+/-- `READ_BITS(val, n)` -/
+def readBits (n : Nat) : QM σ Nat := do
+  ensureBits S n 3
+  let v ← peekBits n
+  removeBits n
+  pure v
+
+/-- the loop of `READ_MANY_BITS`: `needed` is an `unsigned char`, `bitrun ≥ 1` in every
+    iteration (after the refill `bits_left ≥ 17`), so `needed` iterations are enough -/
+def readManyLoop : Nat → Nat → Nat → QM σ Nat
+  | 0, needed, val => if needed > 0 then throw (.fault .hang) else pure val
+  | k + 1, needed, val => do
+    if needed > 0 then
+      if (← get).bitsLeft ≤ 16 then readBytes S
+      let bl := (← get).bitsLeft
+      let bitrun := if bl < needed then bl else needed
+      let v ← peekBits bitrun
+      removeBits bitrun
+      readManyLoop k (needed - bitrun) (shl val bitrun ||| v)
+    else pure val
+
+/-- `READ_MANY_BITS(val, bits)` -/
+def readManyBits (bits : Nat) : QM σ Nat :=
+  let needed := bits % 256
+  readManyLoop S needed needed 0
+
+/-- what one test of the renormalisation loop decides: `none` = `break`, else the `(H, L, C)`
+    after the optional underflow fix and the shifts of `L` and `H` -/
+@[inline] def renormStep (H L C : Nat) : Option (Nat × Nat × Nat) :=
+  let shift (H L C : Nat) := some ((shl H 1 ||| 1) % 65536, shl L 1 % 65536, C)
+  if (L &&& 0x8000) ≠ (H &&& 0x8000) then
+    if (L &&& 0x4000) ≠ 0 ∧ (H &&& 0x4000) = 0 then
+      shift (H ||| 0x4000) (L &&& 0x3FFF) (C ^^^ 0x4000)
+    else none
+  else shift H L C
+
+/-- the `while (1)` loop of `GET_SYMBOL`; one input bit per iteration -/
+def renorm : Nat → QM σ Unit
+  | 0 => throw (.fault .hang)
+  | fuel + 1 => do
+    let r ← get
+    match renormStep r.H r.L r.C with
+    | none => pure ()
+    | some (h, l, c) =>
+      set { r with H := h, L := l, C := c }
+      ensureBits S 1 3
+      let b ← peekBits 1
+      removeBits 1
+      modify fun r => { r with C := (shl r.C 1 ||| b) % 65536 }
+      renorm fuel
+
+/-- `GET_SYMBOL(model, var)` -/
+def getSymbol (fuel : Nat) (id : MId) : QM σ Nat := do
+  let r ← get
+  let o ← liftF (decodeSym (r.st.model id) r.H r.L r.C)
+  set { r with st := r.st.setModel id o.model, H := o.H, L := o.L }
+  renorm S fuel
+  pure o.sym
+
+@[inline] def tableAt (what : String) (t : List Nat) (i : Nat) : QM σ Nat :=
+  match t[i]? with
+  | some v => pure v
+  | none => throw (.fault (.oob what))
+
+/-- `while (n--) *dst++ = *src++;` inside the window, byte by byte, front to back -/
+def copyFwdLoop : Nat → Nat → Nat → Array UInt8 → Array UInt8
+  | 0, _, _, w => w
+  | n + 1, s, d, w => copyFwdLoop n (s + 1) (d + 1) (w.setIfInBounds d (w.getD s 0))
+
+/-- `while (n--) *dst++ = window[j++ & (window_size - 1)];` (`j` taken as `unsigned int`) -/
+def copyMaskedLoop (mask : Nat) : Nat → Nat → Nat → Array UInt8 → Array UInt8
+  | 0, _, _, w => w
+  | n + 1, j, d, w =>
+    copyMaskedLoop mask n ((j + 1) % u32) (d + 1) (w.setIfInBounds d (w.getD (j &&& mask) 0))
+
+/-- a forward copy of `n` bytes inside the window; any byte outside it is a fault -/
+def copyFwd (n s d : Nat) : QM σ Unit := do
+  let sz := (← get).st.window.size
+  if n > 0 ∧ (s + n > sz ∨ d + n > sz) then throw (.fault (.oob "qtmd window (match copy)"))
+  modify fun r => { r with st := { r.st with window := copyFwdLoop n s d r.st.window } }
+
+def copyMasked (n j d : Nat) : QM σ Unit := do
+  let st := (← get).st
+  let sz := st.window.size
+  if n > 0 ∧ (d + n > sz ∨ st.windowSize > sz ∨ st.windowSize = 0) then
+    throw (.fault (.oob "qtmd window (wrapping match copy)"))
+  let mask := st.windowSize - 1
+  modify fun r => { r with st := { r.st with window := copyMaskedLoop mask n j d r.st.window } }
+
+/-- `sys->write(output, window + from, n)` on a host that accepts everything -/
+def writeOut (src n : Nat) : QM σ Unit := do
+  let sz := (← get).st.window.size
+  if n > 0 ∧ src + n > sz then throw (.fault (.oob "qtmd window (write)"))
+  modify fun r => { r with written := r.written ++ r.st.window.extract src (src + n) }
+
+/-- the match offset of selectors 4, 5, 6: `READ_MANY_BITS(extra, extra_bits[sym]);
+    match_offset = position_base[sym] + extra + 1` -/
+def readOffset (sym : Nat) : QM σ Nat := do
+  let nb ← tableAt "qtmd extra_bits[]" qtmExtraBits sym
+  let extra ← readManyBits S nb
+  let pb ← tableAt "qtmd position_base[]" qtmPositionBase sym
+  pure ((pb + extra + 1) % u32)
+
+/-- `while (window_posn < frame_end) { … }`; `n` bounds the iterations (each one advances
+    `window_posn` or leaves the loop) -/
+def symbolLoop (fuel : Nat) (frameEnd : Nat) : Nat → QM σ Unit
+  | 0 => do if (← get).windowPosn < frameEnd then throw (.fault .hang)
+  | n + 1 => do
+    if (← get).windowPosn < frameEnd then
+      let selector ← getSymbol S fuel .m7
+      if selector < 4 then
+        let id : MId := if selector = 0 then .m0 else if selector = 1 then .m1
+                        else if selector = 2 then .m2 else .m3
+        let sym ← getSymbol S fuel id
+        let wp := (← get).windowPosn
+        if wp ≥ (← get).st.window.size then throw (.fault (.oob "qtmd window (literal)"))
+        modify fun r => { r with st := { r.st with window := r.st.window.setIfInBounds wp (UInt8.ofNat (sym % 256)) },
+                                 windowPosn := wp + 1,
+                                 frameTodo := (r.frameTodo + u32 - 1) % u32 }
+        symbolLoop fuel frameEnd n
+      else
+        let (matchOffset, matchLength) ←
+          if selector = 4 then do
+            let sym ← getSymbol S fuel .m4
+            pure ((← readOffset S sym), 3)
+          else if selector = 5 then do
+            let sym ← getSymbol S fuel .m5
+            pure ((← readOffset S sym), 4)
+          else if selector = 6 then do
+            let sym ← getSymbol S fuel .m6len
+            let nb ← tableAt "qtmd length_extra[]" qtmLengthExtra sym
+            let extra ← readManyBits S nb
+            let lb ← tableAt "qtmd length_base[]" qtmLengthBase sym
+            let ml := lb + extra + 5
+            let sym ← getSymbol S fuel .m6
+            pure ((← readOffset S sym), ml)
+          else fail .decrunch
+        modify fun r => { r with frameTodo := (r.frameTodo + u32 - matchLength % u32) % u32 }
+        let r ← get
+        let wp := r.windowPosn
+        let ws := r.st.windowSize
+        if (wp + matchLength) % u32 > ws then
+          -- the match destination wraps the window
+          let i := ws - wp
+          let j := (wp + u32 - matchOffset % u32) % u32
+          copyMasked i j wp
+          -- flush everything up to the end of the window
+          let r ← get
+          let fl := ws - r.st.oPtr
+          if fl > r.outBytes then fail .decrunch
+          writeOut r.st.oPtr fl
+          modify fun r => { r with outBytes := r.outBytes - fl, st := { r.st with oPtr := 0, oEnd := 0 } }
+          copyMasked (matchLength - i) ((j + i) % u32) 0
+          modify fun r => { r with windowPosn := wp + matchLength - ws }
+          -- `break`
+        else
+          if matchOffset > wp then
+            let j := matchOffset - wp
+            if j > ws then fail .decrunch
+            if j < matchLength then
+              copyFwd j (ws - j) wp
+              copyFwd (matchLength - j) 0 (wp + j)
+            else
+              copyFwd matchLength (ws - j) wp
+          else
+            copyFwd matchLength (wp - matchOffset) wp
+          modify fun r => { r with windowPosn := wp + matchLength }
+          symbolLoop fuel frameEnd n
+    else pure ()
+
+/-- `do { READ_BITS(i, 8); } while (i != 0xFF);` -/
+def trailerScan : Nat → QM σ Unit
+  | 0 => throw (.fault .hang)
+  | fuel + 1 => do
+    let i ← readBits S 8
+    if i ≠ 0xFF then trailerScan fuel
+
+/-- `while ((qtm->o_end - qtm->o_ptr) < out_bytes) { … }` -/
+def blockLoop (fuel : Nat) : Nat → QM σ Unit
+  | 0 => do
+    let r ← get
+    if r.st.oEnd - r.st.oPtr < r.outBytes then throw (.fault .hang)
+  | n + 1 => do
+    let r ← get
+    if r.st.oEnd - r.st.oPtr < r.outBytes then
+      -- frame header
+      if !r.st.headerRead then
+        modify fun r => { r with H := 0xFFFF, L := 0 }
+        let c ← readBits S 16
+        modify fun r => { r with C := c, st := { r.st with headerRead := true } }
+      -- how far to decode
+      let r ← get
+      let wp := r.windowPosn
+      let frameEnd := (wp + (r.outBytes - (r.st.oEnd - r.st.oPtr))) % u32
+      let frameEnd := if (wp + r.frameTodo) % u32 < frameEnd
+                      then (wp + r.frameTodo) % u32 else frameEnd
+      let frameEnd := if frameEnd > r.st.windowSize then r.st.windowSize else frameEnd
+      symbolLoop S fuel frameEnd (frameEnd - wp)
+      modify fun r => { r with st := { r.st with oEnd := r.windowPosn } }
+      if (← get).frameTodo > qtmFRAME_SIZE then fail .decrunch
+      -- another frame completed?
+      if (← get).frameTodo = 0 then
+        let bl := (← get).bitsLeft
+        if bl % 8 ≠ 0 then removeBits (bl % 8)
+        trailerScan S fuel
+        modify fun r => { r with frameTodo := qtmFRAME_SIZE, st := { r.st with headerRead := false } }
+      -- window wrap?
+      let r ← get
+      if r.windowPosn = r.st.windowSize then
+        let i := r.st.oEnd - r.st.oPtr
+        if i ≥ r.outBytes then pure ()     -- `break`
+        else
+          writeOut r.st.oPtr i
+          modify fun r => { r with outBytes := r.outBytes - i, windowPosn := 0,
+                                   st := { r.st with oPtr := 0, oEnd := 0 } }
+          blockLoop fuel n
+      else blockLoop fuel n
+    else pure ()
+
+/-- everything of `qtmd_decompress` after "restore local state" up to (not including)
+    "store local state" -/
+def body (fuel : Nat) : QM σ Unit := do
+  blockLoop S fuel (2 * (← get).outBytes + 4)
+  let r ← get
+  if r.outBytes ≠ 0 then
+    writeOut r.st.oPtr r.outBytes
+    modify fun r => { r with st := { r.st with oPtr := r.st.oPtr + r.outBytes } }
+
+/-- `qtmd_decompress(qtm, out_bytes)` (`qtm` non-NULL, `out_bytes ≥ 0`, `write` accepts all) -/
 def decompress {σ : Type} (S : Src σ) (fuel : Nat) (st : St σ) (outBytes : Nat) :
     Except Fault (DecodeOut (St σ)) :=
-  .ok ⟨.ok, [], st⟩
+  if st.error ≠ .ok then .ok ⟨st.error, [], st⟩ else
+  -- flush out any stored-up bytes before we begin
+  let i := st.oEnd - st.oPtr
+  let i := if i > outBytes then outBytes else i
+  if i > 0 ∧ st.oPtr + i > st.window.size then .error (.oob "qtmd window (write)") else
+  let w := st.window.extract st.oPtr (st.oPtr + i)
+  let st := { st with oPtr := st.oPtr + i }
+  let outBytes := outBytes - i
+  if outBytes = 0 then .ok ⟨.ok, w.toList, st⟩ else
+  -- restore local state
+  let r : Run σ :=
+    { inbuf := st.inbuf, bitBuffer := st.bitBuffer, bitsLeft := st.bitsLeft,
+      windowPosn := st.windowPosn, frameTodo := st.frameTodo, H := st.H, L := st.L, C := st.C,
+      outBytes := outBytes, written := w, st := st }
+  match (body S fuel).run.run r with
+  | (.error (.fault f), _) => .error f
+  | (.error (.sys e), r) => .ok ⟨e, r.written.toList, r.st⟩
+  | (.ok (), r) =>
+    -- store local state
+    .ok ⟨.ok, r.written.toList,
+         { r.st with inbuf := r.inbuf, bitBuffer := r.bitBuffer, bitsLeft := r.bitsLeft % 256,
+                     windowPosn := r.windowPosn, frameTodo := r.frameTodo,
+                     H := r.H, L := r.L, C := r.C }⟩
 
 end MsPack.Qtm
